@@ -122,7 +122,7 @@ def sparse_cases(tier):
         for lim in (512, 1024):
             n = next(k for k in range(1, 400) if maplen(k) > lim)
             cross += [n - 1, n] if (lim == 512 or not quick) else [n]
-        for nreg in sorted(set(((5, 26) if quick else (4, 5, 6, 25, 26, 27, 47, 70)) + tuple(cross))):
+        for nreg in sorted(set(((3, 4, 5, 24, 25, 26) if quick else (2, 3, 4, 5, 6, 7, 23, 24, 25, 26, 27, 28, 44, 45, 46, 47, 48, 70)) + tuple(cross))):
             content = b"".join((content_pattern("r%d" % i, 100) + bytes(412)) for i in range(nreg))
             holes = [(i * 512 + 100, 412) for i in range(nreg)]
             many = E(b"many", "file", content=content, holes=holes, sparse=fmt)
